@@ -256,11 +256,11 @@ proof fn lemma_exp_done(data0: Seq<u8>, r0: int, sec: Seq<FileDataSequenceHeader
         final(reader).data@ == old(reader).data@,
         // C09/C18: the written section is the source's record list, and the rebuilt lookup table gives for every record its truncated
         // hash and the ordinal of its header in the WRITTEN section, counted in 48-byte records (verification and metadata-ext included)
-        /*@C09,C18*/ (include_file_info && res is Ok) ==> export_file_post(old(reader).data@, old(reader).pos@, sec, *old(writer), *final(writer), res->Ok_0.0@),
-        /*@C09,C18*/ (include_file_info && res is Ok) ==> res->Ok_0.1 == byte_pos + (final(writer).len() - old(writer).len())
+        /*@C09,C18,C05*/ (include_file_info && res is Ok) ==> export_file_post(old(reader).data@, old(reader).pos@, sec, *old(writer), *final(writer), res->Ok_0.0@),
+        /*@C09,C18,C05*/ (include_file_info && res is Ok) ==> res->Ok_0.1 == byte_pos + (final(writer).len() - old(writer).len())
             && final(reader).pos@ == file_pos(old(reader).pos@, sec, sec.len() as int) + 48,
         // without file info: an empty section (just the bookend) and an empty table
-        /*@C09,C18*/ (!include_file_info && res is Ok) ==> res->Ok_0.0@.len() == 0 && res->Ok_0.1 == byte_pos + 48
+        /*@C09,C18,C05*/ (!include_file_info && res is Ok) ==> res->Ok_0.0@.len() == 0 && res->Ok_0.1 == byte_pos + 48
             && keeps(*old(writer), *final(writer)) && final(writer).len() == old(writer).len() + 48
             && file_section(final(writer).out@, old(writer).len(), Seq::<FileDataSequenceHeader>::empty()),
 //@ body-start
@@ -269,7 +269,7 @@ proof fn lemma_exp_done(data0: Seq<u8>, r0: int, sec: Seq<FileDataSequenceHeader
     proof { if include_file_info { lemma_file_pos_shift(r0, sec, 0); lemma_file_pos_shift(w0.len(), sec, 0); } }
 //@ loop 1
         invariant_except_break
-            /*@C09,C18*/ include_file_info ==> exp_inv(data0, r0, sec, w0, *writer, reader.pos@, file_lookup@, index, k),
+            /*@C09,C18,C05*/ include_file_info ==> exp_inv(data0, r0, sec, w0, *writer, reader.pos@, file_lookup@, index, k),
             include_file_info ==> byte_pos == bp0 + (writer.len() - w0.len()),
             /*@AUX*/ include_file_info ==> 48 * u64v(materialized_bytes) <= (reader.pos@ - r0) * 0xFFFF_FFFF,
             !include_file_info ==> *writer == w0 && file_lookup@.len() == 0 && byte_pos == bp0,
@@ -278,7 +278,7 @@ proof fn lemma_exp_done(data0: Seq<u8>, r0: int, sec: Seq<FileDataSequenceHeader
             include_file_info ==> src_ok(data0, r0, sec),
             /*@AUX*/ bp0 + 48 * 0xFFFF_FFFF <= usize::MAX,
         ensures
-            /*@C09,C18*/ include_file_info ==> export_file_post(data0, r0, sec, w0, *writer, file_lookup@),
+            /*@C09,C18,C05*/ include_file_info ==> export_file_post(data0, r0, sec, w0, *writer, file_lookup@),
             include_file_info ==> byte_pos == bp0 + (writer.len() - w0.len()) && reader.pos@ == file_pos(r0, sec, sec.len() as int) + 48,
             !include_file_info ==> file_lookup@.len() == 0 && byte_pos == bp0 + 48 && keeps(w0, *writer) && writer.len() == w0.len() + 48
                 && file_section(writer.out@, w0.len(), Seq::<FileDataSequenceHeader>::empty()),
@@ -288,7 +288,7 @@ proof fn lemma_exp_done(data0: Seq<u8>, r0: int, sec: Seq<FileDataSequenceHeader
                         reader.pos@ == vx_ps + 48 + 48 * vx_it1,
                         keeps(vx_wa, *writer), writer.len() == vx_wa.len() + 48 * vx_it1,
                         byte_pos == vx_bpa + 48 * vx_it1,
-                        /*@C18*/ forall|j: int| 0 <= j < vx_it1 ==> #[trigger] file_entry_at(writer.out@, vx_wa.len() + 48 * j) == file_entry_at(data0, vx_ps + 48 + 48 * j),
+                        /*@C18,C05*/ forall|j: int| 0 <= j < vx_it1 ==> #[trigger] file_entry_at(writer.out@, vx_wa.len() + 48 * j) == file_entry_at(data0, vx_ps + 48 + 48 * j),
                         /*@AUX*/ vx_bpa + 48 * num_entries + 48 <= usize::MAX,
                         /*@AUX*/ 48 * u64v(materialized_bytes) <= (reader.pos@ - r0) * 0xFFFF_FFFF, vx_ps + 48 + 48 * num_entries - r0 <= 48 * 0xFFFF_FFFF,
 //@ after `let file_metadata = FileDataSequenceHeader::deserialize(reader)?;`
@@ -309,7 +309,7 @@ proof fn lemma_exp_done(data0: Seq<u8>, r0: int, sec: Seq<FileDataSequenceHeader
                 proof {
                     if include_file_info {
                         /*@C09*/ assert(k == sec.len());   /* the copy stops exactly at the source section's bookend */
-                        /*@C09,C18*/ assert(appended(vx_w, *writer, Tok::FileHdr(file_metadata)));   /* the bookend read is the bookend written */
+                        /*@C09,C18,C05*/ assert(appended(vx_w, *writer, Tok::FileHdr(file_metadata)));   /* the bookend read is the bookend written */
                         lemma_exp_done(data0, r0, sec, w0, vx_w, *writer, file_lookup@, index, file_metadata);
                     }
                 }
@@ -317,7 +317,7 @@ proof fn lemma_exp_done(data0: Seq<u8>, r0: int, sec: Seq<FileDataSequenceHeader
                 let ghost vx_wa = *writer; let ghost vx_bpa = byte_pos as int;
                 proof {
                     /*@C09*/ assert(k < sec.len());
-                    /*@C09,C18*/ assert(appended(vx_w, vx_wa, Tok::FileHdr(sec[k])));   /* the header written is the header read */
+                    /*@C09,C18,C05*/ assert(appended(vx_w, vx_wa, Tok::FileHdr(sec[k])));   /* the header written is the header read */
                     /*@C09*/ assert(n_extended_bytes == 48 * (following(file_metadata) - num_entries)) by (nonlinear_arith)
                         requires n_extended_bytes == (if has_verif(file_metadata) { num_entries * 48 } else { 0 }) + (if has_ext(file_metadata) { 48int } else { 0 }),
                             following(file_metadata) == (if has_verif(file_metadata) { 2 * num_entries } else { num_entries as int }) + (if has_ext(file_metadata) { 1int } else { 0 });
@@ -338,8 +338,8 @@ proof fn lemma_exp_done(data0: Seq<u8>, r0: int, sec: Seq<FileDataSequenceHeader
                 proof {
                     /*@C09*/ assert(index == vx_ix + 1 + following(sec[k]));   /* the ordinal advances by ALL 48-byte records of the block: header, entries, verification, metadata-ext */
                     /*@C09*/ assert(file_lookup@ == vx_lk.push((spec_truncate(sec[k].file_hash), vx_ix)));   /* key = truncated file hash, value = ordinal of this block's header */
-                    /*@C18*/ assert(following(sec[k]) > sec[k].num_entries ==> appended(vx_wb, *writer, Tok::Raw(data0.subrange(vx_ps + 48 + 48 * sec[k].num_entries, vx_ps + 48 + 48 * following(sec[k])))));   /* verification and metadata-ext records are copied byte for byte */
-                    /*@C18*/ assert(following(sec[k]) == sec[k].num_entries ==> *writer == vx_wb);
+                    /*@C18,C05*/ assert(following(sec[k]) > sec[k].num_entries ==> appended(vx_wb, *writer, Tok::Raw(data0.subrange(vx_ps + 48 + 48 * sec[k].num_entries, vx_ps + 48 + 48 * following(sec[k])))));   /* verification and metadata-ext records are copied byte for byte */
+                    /*@C18,C05*/ assert(following(sec[k]) == sec[k].num_entries ==> *writer == vx_wb);
                     lemma_exp_step(data0, r0, sec, w0, vx_w, vx_wa, vx_wb, *writer, vx_lk, vx_ix, k, index);
                     k = k + 1;
                 }
@@ -532,9 +532,9 @@ proof fn lemma_cas_done(data0: Seq<u8>, r0: int, sec: Seq<CASChunkSequenceHeader
         final(reader).data@ == old(reader).data@,
         // C09/C18: the written section has the source's block headers; every chunk entry is the source's with its hash keyed; the rebuilt
         // tables give (truncated xorb hash, ordinal of the block header in the WRITTEN section) and (truncated KEYED chunk hash, (that ordinal, chunk index))
-        /*@C09,C18*/ res is Ok ==> export_cas_post(old(reader).data@, old(reader).pos@, sec, hmac_key, *old(writer), *final(writer), final(cas_lookup)@, final(chunk_lookup)@,
+        /*@C09,C18,C05*/ res is Ok ==> export_cas_post(old(reader).data@, old(reader).pos@, sec, hmac_key, *old(writer), *final(writer), final(cas_lookup)@, final(chunk_lookup)@,
             include_cas_lookup_table, include_chunk_lookup_table),
-        /*@C09,C18*/ res is Ok ==> res->Ok_0.0 == byte_pos + (final(writer).len() - old(writer).len())
+        /*@C09,C18,C05*/ res is Ok ==> res->Ok_0.0 == byte_pos + (final(writer).len() - old(writer).len())
             && final(reader).pos@ == cas_pos(old(reader).pos@, sec, sec.len() as int) + 48,
 //@ body-start
     let ghost data0 = reader.data@; let ghost r0 = reader.pos@; let ghost w0 = *writer; let ghost bp0 = byte_pos as int;
@@ -542,7 +542,7 @@ proof fn lemma_cas_done(data0: Seq<u8>, r0: int, sec: Seq<CASChunkSequenceHeader
     proof { lemma_cas_pos_shift(r0, sec, 0); lemma_cas_pos_shift(w0.len(), sec, 0); }
 //@ loop 1
         invariant_except_break
-            /*@C09,C18*/ cas_inv(data0, r0, sec, hmac_key, w0, *writer, reader.pos@, cas_lookup@, chunk_lookup@, include_cas_lookup_table, include_chunk_lookup_table, cas_index, k),
+            /*@C09,C18,C05*/ cas_inv(data0, r0, sec, hmac_key, w0, *writer, reader.pos@, cas_lookup@, chunk_lookup@, include_cas_lookup_table, include_chunk_lookup_table, cas_index, k),
             byte_pos == bp0 + (writer.len() - w0.len()),
         invariant
             reader.data@ == data0, data0 == old(reader).data@, r0 == old(reader).pos@, w0 == *old(writer),
@@ -551,7 +551,7 @@ proof fn lemma_cas_done(data0: Seq<u8>, r0: int, sec: Seq<CASChunkSequenceHeader
             /*@AUX*/ 48 * u64v(stored_bytes_on_disk) <= (reader.pos@ - r0) * 0xFFFF_FFFF, 48 * u64v(stored_bytes) <= (reader.pos@ - r0) * 0xFFFF_FFFF,
             /*@AUX*/ 0 <= reader.pos@ - r0 <= 48 * 0xFFFF_FFFF,
         ensures
-            /*@C09,C18*/ export_cas_post(data0, r0, sec, hmac_key, w0, *writer, cas_lookup@, chunk_lookup@, include_cas_lookup_table, include_chunk_lookup_table),
+            /*@C09,C18,C05*/ export_cas_post(data0, r0, sec, hmac_key, w0, *writer, cas_lookup@, chunk_lookup@, include_cas_lookup_table, include_chunk_lookup_table),
             byte_pos == bp0 + (writer.len() - w0.len()) && reader.pos@ == cas_pos(r0, sec, sec.len() as int) + 48,
 //@ loop 2
                 invariant
@@ -560,8 +560,8 @@ proof fn lemma_cas_done(data0: Seq<u8>, r0: int, sec: Seq<CASChunkSequenceHeader
                     keeps(vx_wa, *writer), writer.len() == vx_wa.len() + 48 * chunk_index,
                     byte_pos == vx_bpa + 48 * chunk_index,
                     cas_lookup@ == vx_cl2,
-                    /*@C18*/ forall|j: int| 0 <= j < chunk_index ==> #[trigger] cas_entry_at(writer.out@, vx_wa.len() + 48 * j) == keyed(hmac_key, cas_entry_at(data0, vx_ps + 48 + 48 * j)),
-                    /*@C09,C18*/ include_chunk_lookup_table ==> chunk_lookup@.len() == vx_hl.len() + chunk_index && (forall|i: int| 0 <= i < vx_hl.len() ==> chunk_lookup@[i] == vx_hl[i])
+                    /*@C18,C05*/ forall|j: int| 0 <= j < chunk_index ==> #[trigger] cas_entry_at(writer.out@, vx_wa.len() + 48 * j) == keyed(hmac_key, cas_entry_at(data0, vx_ps + 48 + 48 * j)),
+                    /*@C09,C18,C05*/ include_chunk_lookup_table ==> chunk_lookup@.len() == vx_hl.len() + chunk_index && (forall|i: int| 0 <= i < vx_hl.len() ==> chunk_lookup@[i] == vx_hl[i])
                         && (forall|j: int| 0 <= j < chunk_index ==> (#[trigger] chunk_lookup@[vx_hl.len() + j]) == (spec_truncate(keyed(hmac_key, cas_entry_at(data0, vx_ps + 48 + 48 * j)).chunk_hash), (cas_index, j as u32))),
                     !include_chunk_lookup_table ==> chunk_lookup@.len() == 0,
                     /*@AUX*/ vx_bpa + 48 * cas_metadata.num_entries + 48 <= usize::MAX,
@@ -580,14 +580,14 @@ proof fn lemma_cas_done(data0: Seq<u8>, r0: int, sec: Seq<CASChunkSequenceHeader
 //@ before `break;`
                 proof {
                     /*@C09*/ assert(k == sec.len());   /* the copy stops exactly at the source section's bookend */
-                    /*@C09,C18*/ assert(appended(vx_w, *writer, Tok::CasHdr(cas_metadata)));   /* the bookend read is the bookend written */
+                    /*@C09,C18,C05*/ assert(appended(vx_w, *writer, Tok::CasHdr(cas_metadata)));   /* the bookend read is the bookend written */
                     lemma_cas_done(data0, r0, sec, hmac_key, w0, vx_w, *writer, cas_lookup@, chunk_lookup@, include_cas_lookup_table, include_chunk_lookup_table, cas_index, cas_metadata);
                 }
 //@ before `for chunk_index in 0..cas_metadata.num_entries {`
             let ghost vx_wa = *writer; let ghost vx_bpa = byte_pos as int; let ghost vx_cl2 = cas_lookup@;
             proof {
                 /*@C09*/ assert(k < sec.len());
-                /*@C09,C18*/ assert(appended(vx_w, vx_wa, Tok::CasHdr(sec[k])));   /* the header written is the header read */
+                /*@C09,C18,C05*/ assert(appended(vx_w, vx_wa, Tok::CasHdr(sec[k])));   /* the header written is the header read */
             }
 //@ before `byte_pos += chunk.serialize(writer)?;`
                 let ghost vx_we = *writer;
@@ -668,38 +668,38 @@ spec fn tables_post(w0: VxW, w1: VxW, f0: MDBShardFileFooter, f1: MDBShardFileFo
             && (include_cas_lookup_table ==> sv.metadata.cas_lookup_num_entry == cas_lookup@.len()),
     ensures
         // C09/C18: the footer offsets are the byte positions of the tables, the counts their lengths, the bytes the rebuilt vectors
-        /*@C09,C18*/ res matches Ok(rt) ==> tables_post(*old(writer), *final(writer), *old(out_footer), *final(out_footer), file_lookup@, cas_lookup@, chunk_lookup@, rt.1@,
+        /*@C09,C18,C05*/ res matches Ok(rt) ==> tables_post(*old(writer), *final(writer), *old(out_footer), *final(out_footer), file_lookup@, cas_lookup@, chunk_lookup@, rt.1@,
             include_file_info, include_cas_lookup_table, include_chunk_lookup_table),
-        /*@C09,C18*/ res matches Ok(rt) ==> rt.0 == final(writer).len(),
+        /*@C09,C18,C05*/ res matches Ok(rt) ==> rt.0 == final(writer).len(),
 //@ body-start
     let ghost w0 = *writer; let ghost f0 = *out_footer; let ghost p0 = writer.len(); let ghost hl0 = chunk_lookup@;
     let ghost nf = sel(include_file_info, file_lookup@.len()); let ghost nc = sel(include_cas_lookup_table, cas_lookup@.len());
 //@ loop 1
                 invariant
                     vx_p1 <= file_lookup@.len(), keeps(w0, *writer), p0 == w0.len(), byte_pos == p0,
-                    /*@C09,C18*/ writer.len() == p0 + 12 * vx_p1,
-                    /*@C09,C18*/ pair_table(writer.out@, p0, file_lookup@, vx_p1 as int),
-                    /*@C09,C18*/ *out_footer == (MDBShardFileFooter { file_lookup_offset: p0 as u64, ..f0 }),
+                    /*@C09,C18,C05*/ writer.len() == p0 + 12 * vx_p1,
+                    /*@C09,C18,C05*/ pair_table(writer.out@, p0, file_lookup@, vx_p1 as int),
+                    /*@C09,C18,C05*/ *out_footer == (MDBShardFileFooter { file_lookup_offset: p0 as u64, ..f0 }),
                 decreases file_lookup@.len() - vx_p1,
 //@ loop 2
                 invariant
                     vx_p2 <= cas_lookup@.len(), keeps(w0, *writer), p0 == w0.len(), nf == sel(include_file_info, file_lookup@.len()),
-                    /*@C09,C18*/ byte_pos == p0 + 12 * nf,   // the position counter has advanced by the bytes of the file table
-                    /*@C09,C18*/ writer.len() == p0 + 12 * nf + 12 * vx_p2,
-                    /*@C09,C18*/ pair_table(writer.out@, p0, file_lookup@, nf), pair_table(writer.out@, p0 + 12 * nf, cas_lookup@, vx_p2 as int),
-                    /*@C09,C18*/ *out_footer == (MDBShardFileFooter { file_lookup_offset: p0 as u64, file_lookup_num_entry: nf as u64, cas_lookup_offset: (p0 + 12 * nf) as u64, ..f0 }),
+                    /*@C09,C18,C05*/ byte_pos == p0 + 12 * nf,   // the position counter has advanced by the bytes of the file table
+                    /*@C09,C18,C05*/ writer.len() == p0 + 12 * nf + 12 * vx_p2,
+                    /*@C09,C18,C05*/ pair_table(writer.out@, p0, file_lookup@, nf), pair_table(writer.out@, p0 + 12 * nf, cas_lookup@, vx_p2 as int),
+                    /*@C09,C18,C05*/ *out_footer == (MDBShardFileFooter { file_lookup_offset: p0 as u64, file_lookup_num_entry: nf as u64, cas_lookup_offset: (p0 + 12 * nf) as u64, ..f0 }),
                 decreases cas_lookup@.len() - vx_p2,
 //@ loop 3
                 invariant
                     vx_p3 <= chunk_lookup@.len(), keeps(w0, *writer), p0 == w0.len(),
-                    /*@C09,C18*/ byte_pos == p0 + 12 * nf + 12 * nc,   // ... and of the cas table
+                    /*@C09,C18,C05*/ byte_pos == p0 + 12 * nf + 12 * nc,   // ... and of the cas table
                     nf == sel(include_file_info, file_lookup@.len()), nc == sel(include_cas_lookup_table, cas_lookup@.len()),
-                    /*@C09,C18*/ writer.len() == p0 + 12 * nf + 12 * nc + 16 * vx_p3,
-                    /*@C09,C18*/ pair_table(writer.out@, p0, file_lookup@, nf), pair_table(writer.out@, p0 + 12 * nf, cas_lookup@, nc),
-                    /*@C09,C18*/ triple_table(writer.out@, p0 + 12 * nf + 12 * nc, chunk_lookup@, vx_p3 as int),
-                    /*@C09,C18*/ chunk_lookup@.to_multiset() == hl0.to_multiset(), chunk_lookup@.len() == hl0.len(),
-                    /*@C09,C18*/ forall|i: int, j: int| 0 <= i <= j < chunk_lookup@.len() ==> (#[trigger] chunk_lookup@[i]).0 <= (#[trigger] chunk_lookup@[j]).0,
-                    /*@C09,C18*/ *out_footer == (MDBShardFileFooter { file_lookup_offset: p0 as u64, file_lookup_num_entry: nf as u64, cas_lookup_offset: (p0 + 12 * nf) as u64, cas_lookup_num_entry: nc as u64,
+                    /*@C09,C18,C05*/ writer.len() == p0 + 12 * nf + 12 * nc + 16 * vx_p3,
+                    /*@C09,C18,C05*/ pair_table(writer.out@, p0, file_lookup@, nf), pair_table(writer.out@, p0 + 12 * nf, cas_lookup@, nc),
+                    /*@C09,C18,C05*/ triple_table(writer.out@, p0 + 12 * nf + 12 * nc, chunk_lookup@, vx_p3 as int),
+                    /*@C09,C18,C05*/ chunk_lookup@.to_multiset() == hl0.to_multiset(), chunk_lookup@.len() == hl0.len(),
+                    /*@C09,C18,C05*/ forall|i: int, j: int| 0 <= i <= j < chunk_lookup@.len() ==> (#[trigger] chunk_lookup@[i]).0 <= (#[trigger] chunk_lookup@[j]).0,
+                    /*@C09,C18,C05*/ *out_footer == (MDBShardFileFooter { file_lookup_offset: p0 as u64, file_lookup_num_entry: nf as u64, cas_lookup_offset: (p0 + 12 * nf) as u64, cas_lookup_num_entry: nc as u64,
                         chunk_lookup_offset: (p0 + 12 * nf + 12 * nc) as u64, ..f0 }),
                 decreases chunk_lookup@.len() - vx_p3,
 //@ before `write_u64(writer, key)?;` #1
@@ -708,7 +708,7 @@ spec fn tables_post(w0: VxW, w1: VxW, f0: MDBShardFileFooter, f1: MDBShardFileFo
                 proof {
                     let wm = vx_a1; let k = vx_p1 - 1;
                     lemma_pair_table_keeps(wm, *writer, p0, file_lookup@, k);
-                    /*@C09,C18*/ assert(pair_at(writer.out@, p0 + 12 * k, file_lookup@[k]));   /* entry k was written as (u64 key, u32 ordinal) at its 12-byte slot */
+                    /*@C09,C18,C05*/ assert(pair_at(writer.out@, p0 + 12 * k, file_lookup@[k]));   /* entry k was written as (u64 key, u32 ordinal) at its 12-byte slot */
                     lemma_keeps_trans(w0, wm, *writer);
                 }
 //@ before `write_u64(writer, key)?;` #2
@@ -718,7 +718,7 @@ spec fn tables_post(w0: VxW, w1: VxW, f0: MDBShardFileFooter, f1: MDBShardFileFo
                     let wm = vx_a2; let k = vx_p2 - 1;
                     lemma_pair_table_keeps(wm, *writer, p0, file_lookup@, nf);
                     lemma_pair_table_keeps(wm, *writer, p0 + 12 * nf, cas_lookup@, k);
-                    /*@C09,C18*/ assert(pair_at(writer.out@, p0 + 12 * nf + 12 * k, cas_lookup@[k]));   /* entry k was written as (u64 key, u32 ordinal) at its 12-byte slot */
+                    /*@C09,C18,C05*/ assert(pair_at(writer.out@, p0 + 12 * nf + 12 * k, cas_lookup@[k]));   /* entry k was written as (u64 key, u32 ordinal) at its 12-byte slot */
                     lemma_keeps_trans(w0, wm, *writer);
                 }
 //@ before `byte_pos += cas_lookup.len()`
@@ -733,7 +733,7 @@ spec fn tables_post(w0: VxW, w1: VxW, f0: MDBShardFileFooter, f1: MDBShardFileFo
                     lemma_pair_table_keeps(wm, *writer, p0, file_lookup@, nf);
                     lemma_pair_table_keeps(wm, *writer, p0 + 12 * nf, cas_lookup@, nc);
                     lemma_triple_table_keeps(wm, *writer, p0 + 12 * nf + 12 * nc, chunk_lookup@, k);
-                    /*@C09,C18*/ assert(triple_at(writer.out@, p0 + 12 * nf + 12 * nc + 16 * k, chunk_lookup@[k]));   /* entry k was written as (u64 key, u32 block ordinal, u32 chunk index) at its 16-byte slot */
+                    /*@C09,C18,C05*/ assert(triple_at(writer.out@, p0 + 12 * nf + 12 * nc + 16 * k, chunk_lookup@[k]));   /* entry k was written as (u64 key, u32 block ordinal, u32 chunk index) at its 16-byte slot */
                     lemma_keeps_trans(w0, wm, *writer);
                 }
 //@ end
